@@ -98,6 +98,15 @@ Proof.
   exact (wit_reject_spec (F st) w H1).
 Qed.
 
+Lemma accepted_spec (W : list (site * wit)) (G : scen -> list nat -> bool) :
+  forallb (fun x => match wit_run (snd x) with Some sf => G (fst sf) (snd sf) | None => false end) W = true ->
+  forall st w s fails, In (st, w) W -> wit_run w = Some (s, fails) -> G s fails = true.
+Proof.
+  intros H st w s fails Hin Hr.
+  pose proof (forallb_In _ _ H (st, w) Hin) as H1. cbv beta in H1. cbn [fst snd] in H1.
+  rewrite Hr in H1. exact H1.
+Qed.
+
 (* ---- the data -------------------------------------------------------------------------------- *)
 
 Definition needed : list (site * wit) :=
@@ -244,6 +253,11 @@ Lemma needed_check :
           needed = true.
 Proof. vm_cast_no_check (eq_refl true). Qed.
 
+Lemma accepted_check :
+  forallb (fun x => match wit_run (snd x) with Some sf => follows expected rexpected (fst sf) (snd sf) | None => false end)
+          needed = true.
+Proof. vm_cast_no_check (eq_refl true). Qed.
+
 Lemma cover_check :
   forallb (fun x => mem x (map fst needed) || mem x (map fst not_needed)) (all_sites expected) = true.
 Proof. vm_cast_no_check (eq_refl true). Qed.
@@ -255,12 +269,15 @@ Lemma skeleton_sites_needed_lemma :
     exists s fails,
       wit_run w = Some (s, fails) /\
       In (sc_fl s) (flag_space (sc_op s)) /\ In (sc_led s) ledgers /\
+      follows expected rexpected s fails = true /\
       del_follows st (s, fails) = false.
 Proof.
   intros st w Hin.
   destruct (needed_spec needed del_follows needed_check st w Hin) as [s [fails [Hr Hf]]].
   exists s, fails. destruct (wit_run_in w s fails Hr) as [H1 H2].
-  split; [exact Hr|]. split; [exact H1|]. split; [exact H2|]. exact Hf.
+  split; [exact Hr|]. split; [exact H1|]. split; [exact H2|].
+  split; [|exact Hf].
+  exact (accepted_spec needed (follows expected rexpected) accepted_check st w s fails Hin Hr).
 Qed.
 
 Lemma skeleton_sites_covered_lemma :
